@@ -62,7 +62,7 @@ AddUndef == /\ ~done /\ Room(0)
             /\ UNCHANGED open
 
 Files == [main |-> [dir |-> "d0", name |-> "m.c", items |-> prog]]
-Entry(cfg) == [file |-> "main", defs |-> cfg, idirs |-> <<>>, forced |-> <<>>]
+Entry(cfg) == [file |-> "main", defs |-> cfg, idirs |-> <<>>, forced |-> <<>>, cwd |-> "d0"]
 
 Ref(cfg) == RunTU(Files, Entry(cfg))
 Impl(cfg) == Associate(prog, cfg)
